@@ -47,6 +47,24 @@ func EncodeView(ctx context.Context, fp io.Writer, view *View, options option.Ex
 	}
 }
 
+// encodedLineBreak returns the bytes of a line break in the character encoding of the file or
+// stream that it is appended to. The JSON encoders always write UTF-8, and a byte order mark
+// belongs to the head of the file only.
+func encodedLineBreak(lineBreak text.LineBreak, format option.Format, encoding text.Encoding) ([]byte, error) {
+	if format == option.JSON || format == option.JSONL {
+		encoding = text.UTF8
+	}
+	switch encoding {
+	case text.UTF8M:
+		encoding = text.UTF8
+	case text.UTF16BEM:
+		encoding = text.UTF16BE
+	case text.UTF16LEM:
+		encoding = text.UTF16LE
+	}
+	return text.Encode([]byte(lineBreak.Value()), encoding)
+}
+
 func encodeCSV(ctx context.Context, fp io.Writer, view *View, options option.ExportOptions) error {
 	w, err := csv.NewWriter(fp, options.LineBreak, options.Encoding)
 	if err != nil {
